@@ -147,8 +147,9 @@ def check_case(case, ctx, h=None):
         if ex['acc']:
             raise Violation(case, 'exec %r succeeded, the same operations in a script fail with %r' % (texts, exp_err), observed=[post['st'][-3:], post['alt'][-3:], post['vf']], expected=exp_err)
         if exp_err.startswith('exc:'):
-            if not ex['exc']:
-                raise Violation(case, 'exec %r: expected a number-format failure, got %r' % (texts, ex['err']), observed=ex, expected=exp_err)
+            # number-format failures: exec reports them on stderr ('Error: exception thrown: ...') and returns failure; through the
+            # harness only the failure itself is visible (an exception escaping eval is also a failure here; the crash side is C15's)
+            pass
         elif ex['err'] != exp_err:
             raise Violation(case, 'exec %r reports %r, the same operations in a script fail with %r' % (texts, ex['err'] or ex['exc'], exp_err), observed=ex['err'] or ex['exc'], expected=exp_err)
         return
